@@ -480,11 +480,11 @@ def main():
             env = dict(os.environ, VERIF_NO_BOUNDED='1', VERIF_AS_DEPENDENCY=prop, VERIF_OUT=os.path.join(OUT, 'dep-' + dep), VERIF_EVIDENCE=os.path.join(OUT, 'dep-evidence'))
             env.pop('VERIF_WRITE_BASELINE', None)
             pr = subprocess.run([sys.executable, os.path.abspath(__file__), dep], capture_output=True, text=True, env=env)
-            ev.setdefault('coverage', {}).setdefault('composed_with', []).append(dict(check=dep, units=list(dep_units), exit_code=pr.returncode))
+            ev.setdefault('coverage', {}).setdefault('composed_with', []).append(dict(check=dep, units=('every unit' if dep_units == '*' else list(dep_units)), exit_code=pr.returncode))
             if pr.returncode != 1:
                 continue          # held, or undecided there: this property's own verdict stands
             lines = pr.stdout.splitlines()
-            fo = [l for l in lines if l.startswith('failed obligation:') and any(('unit=%s (' % u) in l for u in dep_units)]
+            fo = [l for l in lines if l.startswith('failed obligation:') and (dep_units == '*' or any(('unit=%s (' % u) in l for u in dep_units))]
             if not fo:
                 continue
             rp = os.path.join(OUT, 'replay', '%s-composed-%s.json' % (prop, dep))
